@@ -25,6 +25,59 @@ theorem tie_W_FloatExactOrInterval (v : FloatEOI) : Gen.W_FloatExactOrInterval v
   cases v <;> simp [Gen.W_FloatExactOrInterval, Gen.W_FloatInterval, encFloatEOI]
 
 
+/-! ### message `State`: filled through `getattr(state_msg, <mapped attribute name>)` -/
+
+/-- the FloatExactOrInterval fields of message State in the shipped descriptor are the model's `stateFields` -/
+theorem tie_State_float_fields : Gen.State_FloatExactOrInterval_fields = stateFields := by decide
+
+/-- `_map_to_pb_prop` is the identity on every field name of message State (all lower-case) -/
+theorem mapToPbProp_stateFields : ∀ n ∈ stateFields, CR.PyC02.mapToPbProp n = n := by decide +kernel
+
+theorem encAttr_isSet (kv : String × FloatEOI) : (encAttr kv).2.isSet = true := by
+  unfold encAttr
+  split
+  · cases kv.2 <;> rfl
+  · rfl
+
+theorem filter_isSet_encAttr (l : List (String × FloatEOI)) :
+    (l.map encAttr).filter (fun f => f.2.isSet) = l.map encAttr := by
+  apply List.filter_eq_self.mpr
+  intro f hf
+  obtain ⟨kv, _, rfl⟩ := List.mem_map.mp hf
+  exact encAttr_isSet kv
+
+/-- StateMessage.create_message of the current source = the model's `encState`, up to null padding of the position
+    fields, for every state whose attribute names `_map_to_pb_prop` leaves alone (all names without upper-case letters). -/
+theorem tie_W_State (s : St) (h : ∀ kv ∈ s.attrs, CR.PyC02.mapToPbProp kv.1 = kv.1) :
+    CR.PyC02.dropNull (Gen.W_State s) = encState s := by
+  have hmap : List.map (fun kv : String × FloatEOI => (CR.PyC02.mapToPbProp kv.1,
+      CR.PyC02.dynSet Gen.State_FloatExactOrInterval_fields (CR.PyC02.mapToPbProp kv.1) (Gen.W_FloatExactOrInterval kv.2)))
+      s.attrs = s.attrs.map encAttr := by
+    apply List.map_congr_left
+    intro kv hkv
+    rw [h kv hkv, tie_State_float_fields, tie_W_FloatExactOrInterval]
+    rfl
+  unfold Gen.W_State
+  rw [hmap]
+  simp only [CR.PyC02.dropNull, encState, List.filter_append, filter_isSet_encAttr, tie_W_IntegerExactOrInterval]
+  have ht : (encIntEOI s.t).isSet = true := by cases s.t <;> rfl
+  have hn : PB.null.isSet = false := rfl
+  have hs : ∀ sh : Shape, (encShape sh).isSet = true := fun sh => by cases sh <;> rfl
+  have hpt : ∀ p : Pt, (encPt p).isSet = true := fun _ => rfl
+  cases hp : s.pos with
+  | none => simp [encPos, ht, hn]
+  | some p => cases p <;> simp [encPos, ht, hn, hs, hpt, tie_W_Point]
+
+/-- every admissible state (`St.wf`: its attributes are fields of message State) satisfies the hypothesis of `tie_W_State` -/
+theorem tie_W_State_wf (s : St) (h : ∀ kv ∈ s.attrs, kv.1 ∈ stateFields) :
+    CR.PyC02.dropNull (Gen.W_State s) = encState s :=
+  tie_W_State s fun kv hkv => mapToPbProp_stateFields kv.1 (h kv hkv)
+
+theorem optB_eq (o : Option Bool) : PB.ofOpt (o.map PB.bool) = optB o := by cases o <;> rfl
+
+theorem tie_W_SignalState (s : Sig) : Gen.W_SignalState s = encSig s := by
+  simp [Gen.W_SignalState, encSig, tie_W_IntegerExactOrInterval, optB_eq]
+
 theorem tie_W_TimeStamp (t : Tm) : Gen.W_TimeStamp t = encTm t := rfl
 
 theorem tie_W_GeoTransformation (g : Geo) : Gen.W_GeoTransformation g = encGeo g := rfl
@@ -101,13 +154,14 @@ theorem tie_W_SetBasedPrediction (p : SetPred) : Gen.W_SetBasedPrediction p = en
 theorem tie_W_TrajectoryPrediction (t0 : Int) (states : List St) (shape : Shape) :
     Gen.W_TrajectoryPrediction t0 states shape = encTrajPred (some (.traj t0 states shape)) := rfl
 
-theorem tie_W_StaticObstacle (o : StaticObs) : Gen.W_StaticObstacle o = encStatic o := rfl
+theorem tie_W_StaticObstacle (o : StaticObs) : Gen.W_StaticObstacle o = encStatic o := by
+  simp [Gen.W_StaticObstacle, encStatic, tie_W_SignalState]
 
 theorem tie_W_DynamicObstacle (o : DynObs) : Gen.W_DynamicObstacle o = encDynamic o := by
   unfold Gen.W_DynamicObstacle encDynamic
   cases h : o.pred with
-  | none => rfl
-  | some p => cases p <;> simp [encTrajPred, encSetPredOf, tie_W_TrajectoryPrediction, tie_W_SetBasedPrediction]
+  | none => simp [encTrajPred, encSetPredOf, tie_W_SignalState]
+  | some p => cases p <;> simp [encTrajPred, encSetPredOf, tie_W_TrajectoryPrediction, tie_W_SetBasedPrediction, tie_W_SignalState]
 
 theorem tie_W_EnvironmentObstacle (o : EnvObs) : Gen.W_EnvironmentObstacle o = encEnvObs o := rfl
 
